@@ -11,9 +11,12 @@
    Hosts and domains are SEQUENCES OF LABELS (<<"a","example","com">>), paths are
    sequences of segments plus a trailing-slash flag; DomainMatch / PathMatch / IsIP
    are derived on those sequences, never on strings, so the reference cannot share
-   an `endswith` / prefix mistake with the code.  Cookie values are fresh integers
-   (the n-th Set-Cookie of a history carries value n), so "which write produced the
-   value I see" is observable.
+   an `endswith` / prefix mistake with the code.  The n-th Set-Cookie of a history is
+   write n (wid); its value is normally the fresh integer n, so "which write produced
+   the value I see" is observable.  A write may instead RE-SEND the value of an earlier
+   write (same value, possibly other attributes): s5.3 step 11 replaces the stored cookie
+   of that (name, domain, path), so the attributes of the latest write win.  s.vals[n] is
+   the value of write n, s.fate[n] what became of it.
 
    Documented aiohttp behaviour that differs from a bare RFC store is a constant of
    the reference (record cf):
@@ -83,7 +86,7 @@ StripTrail(p) == IF p.segs = <<>> THEN Root ELSE [segs |-> p.segs, trail |-> FAL
 SecureScheme(sch) == sch \in {"https", "wss"}
 
 (* ------------------------------------------------------------------ store *)
-Init0(cf) == [cf |-> cf, store |-> {}, now |-> T0, fate |-> <<>>, hok |-> {}]
+Init0(cf) == [cf |-> cf, store |-> {}, now |-> T0, fate |-> <<>>, vals |-> <<>>, hok |-> {}]
 
 \* cf.hosts / cf.paths: the lattice of the run.  Each stored cookie carries okH / okP, the hosts and
 \* paths of the lattice it domain-matches / path-matches, computed ONCE when it is stored (with
@@ -99,12 +102,12 @@ Expired(c, now) == c.expiry # Session /\ c.expiry <= now
 HOflag(s, c) == IF s.cf.hostOnlyKey THEN <<c.domain, c.name>> \in s.hok ELSE c.hostOnly
 HOeff(s, c) == s.cf.hostOnlyEnforced /\ HOflag(s, c)
 
-SetFate(f, vals, why) == [i \in 1..Len(f) |-> IF i \in vals THEN why ELSE f[i]]
+SetFate(f, wids, why) == [i \in 1..Len(f) |-> IF i \in wids THEN why ELSE f[i]]
 
 Delete(s, D, why) ==
     [s EXCEPT !.store = s.store \ D,
               !.hok = s.hok \ {<<c.domain, c.name>> : c \in D},
-              !.fate = SetFate(s.fate, {c.value : c \in D}, why)]
+              !.fate = SetFate(s.fate, {c.wid : c \in D}, why)]
 
 \* s5.3 "remove all expired cookies"
 Purge(s) ==
@@ -116,7 +119,7 @@ SameId(s, c, name, dom, path) ==
     /\ c.domain = dom
     /\ IF s.cf.pathAlias THEN StripTrail(c.path) = StripTrail(path) ELSE c.path = path
 
-Reject(s, why) == [s EXCEPT !.fate = Append(s.fate, why)]
+Reject(s, e, why) == [s EXCEPT !.fate = Append(s.fate, why), !.vals = Append(s.vals, e.val)]
 
 \* s5.2 + s5.3: one Set-Cookie header received in a response from e.host, e.path
 DoReceive(s, e) ==
@@ -128,9 +131,9 @@ DoReceive(s, e) ==
         dom == IF useAttr THEN da.labels ELSE host
         ho == ~useAttr
     IN
-    IF IsIP(host) /\ ~s.cf.unsafe THEN Reject(s, "rejected-ip")
-    ELSE IF useAttr /\ ~DomainMatch(dom, host) THEN Reject(s, "rejected-domain")     \* s5.3 step 6
-    ELSE IF s.cf.domainCase /\ useAttr /\ da.up THEN Reject(s, "rejected-domain")    \* Dev_DomainCase
+    IF IsIP(host) /\ ~s.cf.unsafe THEN Reject(s, e, "rejected-ip")
+    ELSE IF useAttr /\ ~DomainMatch(dom, host) THEN Reject(s, e, "rejected-domain")     \* s5.3 step 6
+    ELSE IF s.cf.domainCase /\ useAttr /\ da.up THEN Reject(s, e, "rejected-domain")    \* Dev_DomainCase
     ELSE
         LET path == IF e.pth.present THEN MkPath(e.pth) ELSE DefaultPath(e.path)  \* s5.2.4 / s5.3 step 7
             old == {c \in s.store : SameId(s, c, e.name, dom, path)}
@@ -140,11 +143,13 @@ DoReceive(s, e) ==
                            THEN (CHOOSE c \in old : TRUE).expiry
                       ELSE Session
             new == [name |-> e.name, domain |-> dom, hostOnly |-> ho, path |-> path,
-                    secure |-> e.secure, expiry |-> expiry, value |-> e.val, setter |-> host,
+                    secure |-> e.secure, expiry |-> expiry, value |-> e.val, wid |-> Len(s.fate) + 1,
+                    setter |-> host,
                     okH |-> {h \in s.cf.hosts : DomainMatch(dom, h)},
                     okP |-> {q \in s.cf.paths : PathMatch(path, q)}]
             s1 == [s EXCEPT !.store = (s.store \ old) \cup {new},            \* s5.3 step 11
-                            !.fate = Append(SetFate(s.fate, {c.value : c \in old}, "overwritten"), "live"),
+                            !.fate = Append(SetFate(s.fate, {c.wid : c \in old}, "overwritten"), "live"),
+                            !.vals = Append(s.vals, e.val),
                             !.hok = IF ho THEN s.hok \cup {<<dom, e.name>>} ELSE s.hok]
         IN Purge(s1)
 
@@ -152,7 +157,7 @@ DoReceive(s, e) ==
 DoSaveLoad(s) ==
     LET saved == {[c EXCEPT !.hostOnly = (s.cf.saveHostOnly /\ HOflag(s, c))] : c \in s.store}
         kept == {c \in saved : ~IsIP(c.domain) \/ s.cf.unsafe}
-        lost == {c.value : c \in {x \in saved : IsIP(x.domain) /\ ~s.cf.unsafe}}
+        lost == {c.wid : c \in {x \in saved : IsIP(x.domain) /\ ~s.cf.unsafe}}
     IN [s EXCEPT !.store = kept,
                  !.hok = {<<c.domain, c.name>> : c \in {x \in kept : x.hostOnly}},
                  !.fate = SetFate(s.fate, lost, "cleared")]
@@ -169,7 +174,8 @@ Step(s, e) ==
 IsRejected(s, e) == e.ev = "Receive" /\ LET f == Step(s, e).fate IN f[Len(f)] \in {"rejected-ip", "rejected-domain"}
 
 Legal(s, e) ==
-    CASE e.ev = "Receive" -> e.val = Len(s.fate) + 1 /\ e.maxage >= -1 /\ e.expires >= 0
+    \* a fresh value (the write's own number) or the value of an earlier write
+    CASE e.ev = "Receive" -> e.val >= 1 /\ e.val <= Len(s.fate) + 1 /\ e.maxage >= -1 /\ e.expires >= 0
       [] e.ev = "Tick" -> e.n >= 1
       [] e.ev \in {"Clear", "ClearDomain", "SaveLoad", "Query"} -> TRUE
       [] OTHER -> FALSE
@@ -189,18 +195,20 @@ Retrieve(s, q) ==
 (* --------------------------------------------------------------- judging *)
 \* why value v must not appear under `name` in the answer to q
 LeakName(s, q, name, v) ==
-    IF v < 1 \/ v > Len(s.fate) THEN "Conservation"
-    ELSE LET live == {c \in s.store : c.value = v} IN
+    LET writes == {w \in 1..Len(s.vals) : s.vals[w] = v} IN
+    IF writes = {} THEN "Conservation"
+    ELSE LET live == {c \in s.store : c.value = v /\ c.name = name} IN
          IF live = {} THEN
-             CASE s.fate[v] = "expired" -> "ExpiredSent"
-               [] s.fate[v] = "rejected-domain" -> "CrossSiteWrite"
-               [] s.fate[v] = "rejected-ip" -> "IPCookieStored"
-               [] s.fate[v] = "overwritten" -> "StaleValue"
-               [] s.fate[v] = "cleared" -> "ClearedSent"
-               [] OTHER -> "Conservation"
-         ELSE LET c == CHOOSE x \in live : TRUE IN
-              IF c.name # name THEN "Conservation"
-              ELSE IF IsIP(q.host) /\ ~s.cf.unsafe THEN "IPLeak"
+             IF \E c \in s.store : c.value = v THEN "Conservation"      \* a value of another name
+             ELSE LET w == CHOOSE x \in writes : \A y \in writes : y <= x    \* the latest write of v
+                  IN CASE s.fate[w] = "expired" -> "ExpiredSent"
+                       [] s.fate[w] = "rejected-domain" -> "CrossSiteWrite"
+                       [] s.fate[w] = "rejected-ip" -> "IPCookieStored"
+                       [] s.fate[w] = "overwritten" -> "StaleValue"
+                       [] s.fate[w] = "cleared" -> "ClearedSent"
+                       [] OTHER -> "Conservation"
+         ELSE LET c == CHOOSE x \in live : \A y \in live : y.wid <= x.wid IN
+              IF IsIP(q.host) /\ ~s.cf.unsafe THEN "IPLeak"
               ELSE IF ~DomainMatch(c.domain, q.host) THEN "DomainLeak"
               ELSE IF HOeff(s, c) /\ q.host # c.domain THEN "HostOnlyLeak"
               ELSE IF ~PathMatch(c.path, q.path) THEN "PathLeak"
